@@ -181,7 +181,35 @@ func vAliasBytes(a, b []byte) bool {
 // vEncodeFormats: the format codes handed to the type map's Encode so far
 // (observable only in the encoding; natively the real pgx codecs run).
 func vEncodeFormats() []int { return nil }
-func vAllocLimits(bytes, count int) {}
+// vAllocLimits / vAllocCheck, native side: the engine decides the allocation
+// obligations per make site for all inputs; natively a counterexample is
+// confirmed by measuring what handling the message really allocated.
+var vAllocBase uint64
+var vAllocBudget uint64
+
+func vAllocLimits(bytes, count int) {
+	var ms runtime.MemStats
+	runtime.ReadMemStats(&ms)
+	vAllocBase = ms.TotalAlloc
+	budget := uint64(bytes)
+	if c := uint64(count) * 64; c > budget {
+		budget = c
+	}
+	vAllocBudget = 4*budget + 8<<20 // generous slack for bookkeeping allocations
+}
+
+func vAllocCheck() {
+	if vAllocBudget == 0 {
+		return
+	}
+	var ms runtime.MemStats
+	runtime.ReadMemStats(&ms)
+	if ms.TotalAlloc-vAllocBase > vAllocBudget {
+		vFailures = append(vFailures, "alloc-bounded")
+		fmt.Printf("VERIF-FAIL alloc-bounded allocated=%d budget=%d\n", ms.TotalAlloc-vAllocBase, vAllocBudget)
+		panic(vFailed{"alloc-bounded"})
+	}
+}
 
 // vRaceMode: native replay of a footprint counterexample under the race detector.
 func vRaceMode() bool { return os.Getenv("VERIF_RACE") != "" }
